@@ -58,5 +58,15 @@ CLAIMS['C16'] = dict(
          'np.arange(a, b, c) does not arise; the np.arange(a,b,c) model used for mutants reads the length over the reals too); '
          'meshgrid/flatten/flip/.flat index arithmetic trusted + natively cross-checked',
     design_ref='DESIGN.md §5 C16')
+CLAIMS['C14'] = dict(
+    text='Proof of the frame/ownership conditions that make results a function of (model, frequency): every write that can '
+         'outlive a call is inventoried mechanically and classified (construction / stage output / cache); caches have '
+         'geometry-only read sets or are re-established by the frequency setter (verified contract of Mininec.f.setter with a '
+         'quantified loop invariant over all objects); compute stages, kernels and writers write only their declared outputs; '
+         'writers never iterate a set, no clock or entropy reaches the output. A write in nobody\'s inventory fails '
+         'C14/unclassified-state.',
+    note='the history-independence lemma is argued from these obligations, not mechanised; numpy/LAPACK determinism assumed; '
+         'native sweep (sweep vs fresh, orders, two processes) is a bounded stand-in',
+    design_ref='DESIGN.md §5 C14')
 for _p in CLAIMS:
     NOT_APPLICABLE.pop(_p, None)
